@@ -108,7 +108,7 @@ prop("C19", "exploration", (40, 600),
      variants={"quick": ["v0", "v1"], "thorough": ["v0", "v1", "v2", "v3"]}, driver=True)
 
 prop("C17", "exploration", (240, 5000),
-     rule="one run = crash/restart of one seeded circuit (programs over the gates and generators registered in the default serializers, lookups, zk, all configurations; Poseidon): "
+     rule="one run = crash/restart of one seeded circuit (programs over the gates and generators registered in the default serializers, lookups, zk, all configurations; Poseidon; every sixth run a recursion circuit verifying a proof of the program circuit, plain or conditional): "
           "every encodable state (proof, compressed proof, verifier-only, common, verifier circuit data, prover circuit data, whole circuit) is written, decoded by a fresh value, "
           "compared (Eq), re-encoded (byte-identical), and the restored circuit is exercised against the original in both directions (witness generation with the same entropy, "
           "restored prover -> original verifier, original proof -> restored circuit and restored verifier, digests). I/O faults: truncated input at first/last/boundary/random prefixes "
@@ -151,7 +151,7 @@ prop("C08", "exploration", (120, 4000),
      rule="one run = one lookup-heavy scenario: 1-4 tables (sizes 1, 2, slots-1, slots, slots+1, 2*slots, several rows' worth; arbitrary 16-bit pairs, duplicate outputs, inputs shared between tables), "
           "per table 1 .. 3 rows' worth of lookups with heavy repetition, exact multiples of the slot count and partially filled last rows, unused entries; all configurations. "
           "Fault-free case: proves, verifies, every lookup output equals the table's value (reference evaluator), the statement checker is satisfied. Fault cases (Byzantine prover of C02): "
-          "looked-up output +1 / random, looked-up input +1, the output another table holds for the same input, table-row input/output cells, H1 (all-zero accumulator) and H2 (quotient altered per challenge): "
+          "looked-up output +1 / random, looked-up input +1, the output another table holds for the same input, table-row input/output cells, H1 (all-zero accumulator), H2 (quotient altered per challenge) and the strategy \"first lookup row left out of the running sum\" (wrong output in the first LookupGate row of a table while the prover's bookkeeping prover_only.lookup_rows starts the lookup rows one row later): "
           "no accepted proof. distinct = (scenario, fault); non-trivial = the statement checker finds the pair outside its table (or the strategy must be rejected)",
      technique="deterministic simulation: lookup workloads through the honest pipeline and a Byzantine prover with lookup-pair / table-cell faults; table-data statement checker as oracle",
      text="Seeded exploration of lookup arguments in both directions: completeness with reference-checked outputs on boundary table/lookup sizes, and rejection of every single-pair, "
@@ -207,7 +207,30 @@ prop("C10", "exploration", (300, 6000),
      technique="deterministic simulation: STARK lookup and multi-table cross-table-lookup workloads with single-value faults on looking side, looked side, frequencies and filters; direct multiset oracle",
      text="Seeded exploration of STARK column lookups and cross-table lookups in both directions with a multiset oracle that shares no code with the logUp / running-sum arguments; the multi-table driver is validated in the fault-free configuration on every run.",
      note="Cross-table topologies are restricted to what the library supports: constraint degree 3, the looked table not among its looking tables, sides of a repeated looking table adjacent (the prover groups them with a consecutive group_by). "
-          "Helper and running-sum columns are computed inside the prover and cannot be corrupted through the API. Extra looking values (ctl_extra_looking_sums) are not exercised.")
+          "Byzantine strategies beyond single-value faults: auxiliary (helper / running-sum) columns computed from the honest trace and committed next to a faulted trace (prove_with_commitment with a mismatching trace), and a cross-table running sum shifted by a constant with the prover's own CtlData. Extra looking values (ctl_extra_looking_sums) are not exercised.")
+
+prop("C06", "exploration", (48, 1200),
+     rule="one run = one aggregator scenario: an inner circuit (seeded program, recursion-compatible configuration: Poseidon, with/without lookups and zero-knowledge, 1-3 challenges, arities, 2-8 queries, cap heights) "
+          "and an outer circuit (add_virtual_proof_with_pis + verify_proof + re-exposed public inputs; Poseidon or Keccak outer configuration) built once; a case = one inner proof handed to the aggregator: "
+          "the honest proof; ~24 (thorough 60) element faults and 4 list faults over all proof components (caps, openings, query-round leaves / siblings / coset evaluations, commit caps, final polynomial, pow witness, public inputs); "
+          "proofs of false statements from the Byzantine prover (cell faults); single-check proofs from the strategy hooks H1 (all-zero accumulator), H2 (quotient altered for each challenge index), H4 (grinding witness), H5 (final polynomial). "
+          "Oracle: native verify(proof).is_ok()  <=>  the library's own set_proof_with_pis_target + set_verifier_data_target + witness generation succeed AND the independent statement checker is satisfied on the outer witness; "
+          "for the first agreeing accept the outer proof is also proved, verified and its public inputs compared with the inner ones. distinct = (scenario, inner proof fault); non-trivial = the inner proof differs from the honest one (or is the honest one)",
+     technique="deterministic simulation: aggregator node fed valid, faulted and single-check inner proofs; the native verifier is the reference model for the in-circuit verifier",
+     text="Seeded exploration of the in-circuit verifier against the native verifier as reference model, with inner proofs that fail exactly one native check so that a check missing only in the circuit version is not masked.",
+     note="Outer acceptance is decided by witness generation + the statement checker SAT (which trusts the gates' eval_filtered); one outer proof per scenario is fully proved and verified. Inner circuits are kept <= 2^9 rows and <= 8 queries so that the outer circuit stays at 2^10-2^12 rows.")
+
+prop("C20", "exploration", (36, 600),
+     rule="one run = either (11/12) a conditional aggregator for one inner circuit shape (seeded program x recursion-compatible configuration; a sibling circuit with the same common data and another key is obtained by changing one constant): "
+          "inner (proof, key) variants {valid, element-tampered, false statement from the Byzantine prover, valid proof of the sibling circuit, right proof with the sibling's key, sibling's proof with the right key}; "
+          "cells of the matrix condition x variant0 x variant1 for conditionally_verify_proof (every cell in which the two branches differ in validity, a third of the others) and condition x variant for conditionally_verify_proof_or_dummy; "
+          "the dummy proof of dummy_circuit(common) verifies; or (1/12) a cyclic chain of length 1-3 after the base case (cyclic_base_proof): every link proves, verifies, passes check_cyclic_proof_verifier_data and carries reference-correct "
+          "public inputs (textbook Poseidon iteration, counter), and +1 on EVERY embedded verifier-data element is caught by check_cyclic_proof_verifier_data (every 7th also through verify). "
+          "Oracle for the matrix: outer assignment + witness generation + statement checker accept  <=>  the native verifier accepts the SELECTED proof under the SELECTED key. "
+          "distinct = (scenario, cell); non-trivial = the two branches differ in validity (conditional), every cell (or-dummy, cyclic)",
+     technique="deterministic simulation: aggregator with two inner proofs and a condition (full validity matrix), dummy branch, and cyclic chains as histories; native verifier as reference model",
+     text="Seeded exploration of conditional verification as a matrix over condition and validity of each branch and key, and of cyclic recursion as multi-step histories with alteration of the embedded verifier data.",
+     note="Shapes for which the library's dummy_circuit cannot reproduce the common data (a build-time assert) or whose cap height differs from the outer configuration's are outside the or-dummy variant's preconditions and skip that part (probe counts both). Cyclic chains use the standard recursion configuration (2^12-row circuit).")
 
 prop("C11", "exploration", (48, 1200),
      rule="one run = one STARK aggregator scenario: a STARK definition from the simulator's family (1/4 with column lookups; also definitions without quotient), a recursion-compatible StarkConfig (ConstantArityBits, 1-4 queries, 1-3 challenges), "
